@@ -1,2 +1,7 @@
 """Input-class predicates of known findings: a known finding only matches a failing bounded case when
 its predicate holds for the facts of that case, so a different violation is still reported."""
+
+
+def c03_cov_stop(facts):
+    """Damped NS run with compute_residuals=False (covariance-based stop) on a matrix with s_min > 1."""
+    return bool(facts.get("cov_stop")) and facts.get("smin", 0) > 1
